@@ -92,7 +92,7 @@ def check(rep):
     ER.rule_value_keyed_caches(ctx, rid="C05.NO-VALUE-KEYED-CACHE",
                                modules={"codegen/python/python_generator.py", "language/grammar.py", "language/lexer.py",
                                         "data_structures/syntax_tree.py", "utils/wraper_functions.py"})
-    PR.rule_coercions(ctx)
+    PR.rule_coercions(ctx, skip_validators_on=("group_weight",))
     PR.rule_renderers(ctx)
     PR.rule_literal_terms(ctx)
     PR.rule_placement(ctx, rid="C05.PLACEMENT")
